@@ -25,9 +25,10 @@ ALG={'Sha256':'sha256','Sha512':'sha512'}
 class NoRef(Exception): pass
 
 def hexs(bl): return ''.join('%02x'%b for b in bl)
-def rfc3339(utc,off):
+def rfc3339(utc,off,nanos=0):
     t=datetime.datetime(1970,1,1)+datetime.timedelta(seconds=utc+off)
     s=t.strftime('%Y-%m-%dT%H:%M:%S')
+    if nanos: s+=('.%09d'%nanos).rstrip('0')         # the reference form keeps the fraction the value has
     if off==0: return s+'Z'
     o=abs(off); return s+'%s%02d:%02d'%('+' if off>=0 else '-',o//3600,(o%3600)//60)
 
@@ -61,7 +62,7 @@ class RefWire:
         if t=='Artifact': return v.upper()
         if t=='PredicateVer': return PRED_URI[v]
         if t=='TimeStamp':
-            d=deref(f[0]).f; return rfc3339(self.enc(d[0]),self.enc(d[2]))
+            d=deref(f[0]).f; return rfc3339(self.enc(d[0]),self.enc(d[2]),self.enc(d[1]))
         if t=='DateTime': return rfc3339(self.enc(f[0]),0)
         if t=='ArtifactRule':
             if v!='Match': return [v.upper(),self.enc(f[0])]
